@@ -126,9 +126,7 @@ theorem next_only (c : Conn) (x : Channel) (b : Bunch) (hrel : b.bReliable = tru
     · exact h2
     · simp only [hrel, h1, h2, Bool.true_and, decide_false, Bool.false_eq_true, if_false, bne_iff_ne, ne_eq, not_false_eq_true, decide_true, if_true] at h
       split at h
-      · have h' := congrArg Prod.snd h
-        have h'' := congrArg Prod.fst h
-        exact absurd (show c.receivedNextBunch b = (c.emit (.free .node), true) from h.symm) (hfull)
+      · exact absurd h.symm hfull
       · cases he : enqueueIncoming b x.inRec with
         | none => simp [he] at h; exact absurd h.symm hne
         | some q => simp [he] at h; exact absurd h.symm (hq q)
@@ -224,6 +222,22 @@ theorem delivered_once (ops : List (Env × Op)) (c : Conn) (h : RecvInv c) (ch :
 theorem delivered_bounded (ops : List (Env × Op)) (c : Conn) (h : RecvInv c) (ch : Nat) (x : Channel) (hx : (run c ops).getChan ch = some x) :
     ∀ s ∈ relLog ch (run c ops).log, s ≤ x.inReliable :=
   ((run_order ops c h).chans ch _ (chanRecv_of_getChan hx)).dl.2
+
+/-- **the out-of-order queue is bounded** (the repair of defect D15): after any history, a channel never holds `UTCP_RELIABLE_BUFFER` (256)
+or more bunches waiting for a missing predecessor — so, with the sender's at most 256 unacknowledged bunches, fewer than 512 sequence
+numbers of a channel are in flight, which is what the 10-bit wire sequence can tell apart -/
+theorem queue_bounded (ops : List (Env × Op)) (c : Conn) (h : RecvInv c) (ch : Nat) (x : Channel) (hx : (run c ops).getChan ch = some x) :
+    x.inRec.length < 256 :=
+  ((run_order ops c h).chans ch _ (chanRecv_of_getChan hx)).qlen
+
+/-- a reliable bunch ahead of sequence that finds the queue full is refused: nothing is queued, the node is released, and the packet
+is not acknowledged (`skip = true`), so the peer sends the bunch again -/
+theorem full_queue_refuses (c : Conn) (x : Channel) (b : Bunch) (hrel : b.bReliable = true) (hahead : b.chSeq > x.inReliable + 1)
+    (hfull : x.inRec.length + 1 ≥ reliableBuffer) : c.processBunch x b = (c.emit (.free .node), true) := by
+  unfold Conn.processBunch
+  have h1 : ¬ (b.chSeq ≤ x.inReliable) := by omega
+  have h2 : b.chSeq ≠ x.inReliable + 1 := by omega
+  simp [hrel, h1, h2, hfull]
 
 /-! non-vacuity: a fresh connection satisfies the invariant; a concrete history keeps it -/
 example : RecvInv (run (({} : Conn).seqInit 3 7) [({}, .send { chIndex := 1, bOpen := true, bReliable := true }), ({}, .flush), ({}, .recv [true, false, true])]) :=
